@@ -105,6 +105,8 @@ class Eval:
         if k == "binop":
             a, b = s.operand(P, r["l"]), s.operand(P, r["r"]); op = r["op"]
             if isinstance(a, Poly) and isinstance(b, Poly):
+                if op.startswith("Add") and getattr(s.top, "track_adds", None) is not None:
+                    s.top.track_adds.append((a, b, list(P.conds), r.get("span")))
                 if op in ("Add", "AddUnchecked"): return a + b
                 if op in ("Sub", "SubUnchecked"): return a - b
                 if op in ("Mul", "MulUnchecked"): return a * b
@@ -961,7 +963,20 @@ def size_hint_semantic(b, desc, W, names, kind="size_hint"):
         ev = Eval(b.d, d2)
         ev.div_strict = True
         ev.initial_conds = list(conds)
+        ev.track_adds = []
         res = ev.run()
+        # the slice of a cursor over zero-sized cells can be usize::MAX long: a plain `+` on the length itself may add at most the gap
+        # K (the cells between this row and the next exist in the parent buffer, so L + K is a length too); anything more -
+        # `(len + denom - 1) / denom` - overflows for such arrays (a panic in debug builds, a wrapped count in release builds)
+        if Lval != ZERO:
+            for a_, b_, pcs_, sp_ in ev.track_adds:
+                other = b_ if a_ == Lval else (a_ if b_ == Lval else None)
+                if other is None:
+                    continue
+                kk = ZERO if subst.get("K") == 0 else K
+                if decide(saturate(list(conds) + list(pcs_)), Cond(">=", kk - other)) is not True:
+                    bad.append((name + " [length overflow]", pcs_, "%r + %r" % (Lval, other), "a sum that cannot exceed usize::MAX: for zero-sized cells the slice can be usize::MAX long and only the gap K is known to fit on top of it"))
+                    break
         for pc, actions, ret, final in res:
             npaths += 1
             got = repr(ret)
